@@ -124,6 +124,11 @@ def cases_completed(tier):
         for m in [None] + list(masks(N)):
             for batch in (None, 2):
                 yield "N%d/mask=%s/batch=%s" % (N, m, batch), {"N": N, "mask": m, "batch": batch}
+    # long vectors with fixed variables scattered among the free ones (values still symbolic: the code only moves them)
+    for N in (17, 20, 33) + ((64, 130) if tier == "thorough" else ()):
+        m = [(i * 5 + 2) % 3 != 0 for i in range(N)]
+        for batch in (None, 3):
+            yield "N%d/every-third-variable-fixed/batch=%s" % (N, batch), {"N": N, "mask": m, "batch": batch}
 
 
 def scn_completed(T, case):
@@ -205,6 +210,8 @@ def cases_gradients(tier):
         for m in [None] + list(masks(N)):
             for K in (0, 1):
                 yield "N%d/mask=%s/K%d" % (N, m, K), {"N": N, "mask": m, "K": K}
+    for N in (17, 20) + ((33, 64) if tier == "thorough" else ()):
+        yield "N%d/every-third-variable-fixed/K2" % N, {"N": N, "mask": [(i * 5 + 2) % 3 != 0 for i in range(N)], "K": 2}
 
 
 def scn_gradients(T, case):
@@ -247,14 +254,16 @@ def cases_requests(tier):
         for bt in (1, 2, 3):
             for both in (True, False):
                 yield "N%d/mask=%s/boundary=%d/%s" % (N, m, bt, "functions+gradients" if both else "gradients-after-functions"), {"N": N, "mask": m, "bt": bt, "both": both}
+            # the fixed variables moved between the function request and the gradient request (a nested optimization does that):
+            # every row of the gradient request carries the fixed values of THAT request
+            yield "N%d/mask=%s/boundary=%d/gradients-after-functions-at-other-fixed-values" % (N, m, bt), {"N": N, "mask": m, "bt": bt, "both": False, "moved": True}
 
 
 def scn_requests(T, case):
     N, mask, R, P = case["N"], case["mask"], 2, 2
     ch = H.Chain(T, stubs={("ropt.ensemble_evaluator._gradient", "_invert_linear_equations"): H.InvertContract(T)} if T.symbolic else None)
     x = T.real("x", (N,))
-    lb, ub = T.real("lb", (N,)), T.real("ub", (N,))
-    T.assume(T.all((lb <= x) & (x <= ub)))
+    lb, ub = T.real("lb", (N,), le=x), T.real("ub", (N,), ge=x)  # pre-condition: the point lies inside the bounds
     mag = T.real("magnitudes", (N,))
     S = T.real("samples", (R, P, N))
     samples = T.np.zeros((R, P, N)) + 0.0
@@ -270,7 +279,13 @@ def scn_requests(T, case):
     if case["both"]:
         res = ev.calculate(x, compute_functions=True, compute_gradients=True)
     else:
-        ev.calculate(x, compute_functions=True, compute_gradients=False)
+        xf = x
+        if case.get("moved"):
+            other = T.real("fixed_values_of_the_function_request", (N,), ge=lb, le=ub)
+            T.assume(T.any([(other[i] - x[i] > 0.5) | (x[i] - other[i] > 0.5) for i in range(N) if not mask[i]]))
+            xf = T.np.array([x[i] if mask[i] else other[i] for i in range(N)])
+        ev.calculate(xf, compute_functions=True, compute_gradients=False)
+        del sev.calls[:]
         res = ev.calculate(x, compute_functions=False, compute_gradients=True)
     for call in sev.calls:
         V = call["variables"]
@@ -481,6 +496,6 @@ MANIFEST = {
     "category": "proof",
     "text": "Deductive: for every mask over N <= 3 (thorough: 4) variables the element-wise clauses of C09 (completed vectors, nested update, sampler masks, rows sent to the evaluator, "
             "reported variables/perturbed variables/gradients, expanded gradients exactly zero, arguments handed to SciPy) are discharged by z3 on the real bodies for all real values.",
-    "note": "sampler 'zero outside its mask' assumed here (C17); SciPy assumed to call only what it is given; floats as reals; masks enumerated for N <= 3 (4 thorough)",
+    "note": "sampler 'zero outside its mask' assumed here (C17); SciPy assumed to call only what it is given; floats as reals; masks enumerated for N <= 3 (4 thorough); completed vectors and gradient expansion also for 17-33 (130) variables with every third one fixed",
     "technique": "contract-based deductive verification: symbolic execution of the real source under sidecar contracts, VCs discharged by z3/cvc5; bounded run-time contract checking as stand-in",
 }
